@@ -17,7 +17,11 @@ def run(ck):
     n1, s1 = selcheck.tv_selection(ck, 6000 if q else 300000, only=SELS, tag="c08")
     laws = [l for l in res.tagged.get("LAW", []) if l["case"]["sel"] == "lexicase"]
     laws.sort(key=lambda l: hashlib.md5(json.dumps(l, sort_keys=True).encode()).hexdigest())
-    laws = laws[:40 if q else 400]
+    # half: the case order changes the winner set; half: three or more co-survivors share the win
+    ties = [l for l in laws if sum(1 for x in l["num"] if x > 0) >= 3]
+    others = [l for l in laws if l not in ties]
+    k = 20 if q else 200
+    laws = others[:k] + ties[:k]
     N = 60000 if q else 1000000
     rows = selcheck.law_rows(ck, "sel-law", laws, N, "lexicase")
     cells = selcheck.check_rows(ck, rows, "lexicase-winner",
@@ -25,6 +29,8 @@ def run(ck):
     # the case order is uniformly random: the first visited case is each case with probability 1/c
     for r in rows:
         c = r["law"]["case"]["c"]
+        if c < 2:
+            continue
         fc = {k: v for k, v in r["first_case"]}
         tot = sum(fc.values())
         if tot < r["n"]:
